@@ -36,41 +36,52 @@ def handleInputIO (ofd : Nat) (w : W) (c : Cli) : W × Cli :=
   let r := handleInput w { c with fd := ofd }
   (r.1, { r.2 with fd := c.fd })
 
-/-- the body of `cli_post_poll`'s loop for a client with `ofd != NO_FD`: `ein` / `eout` are what poll reports for `fd` / `ofd` -/
+/-- `_handle_read` of `cli_post_poll` (the socket client's, verbatim): first the capacity half (`clipC`, `clipE`), then what is done
+    with the bytes read -/
+def readStage (w : W) (c : Cli) (ein : Option FdEnv) : W × Cli :=
+  match clipE c ein, clipC c ein with
+  | some e, c =>
+    if e.rk == 1 then ({ w with sys := w.sys ++ [.read c.fd (-1)] }, { c with quit := true })
+    else if e.rk == 2 then ({ w with sys := w.sys ++ [.read c.fd 0] }, { c with quit := true })
+    else if e.data.isEmpty then ({ w with sys := w.sys ++ [.read c.fd (-1)] }, { c with quit := true })
+    else ({ w with sys := w.sys ++ [.read c.fd e.data.length] }, { c with fromBuf := c.fromBuf ++ e.data })
+  | none, c => (w, c)
+
+/-- `_destroy_client`: both descriptors are closed -/
+def deadIO (ofd : Nat) (w : W) (c : Cli) : W × Option Cli := ({ w with sys := w.sys ++ [.close c.fd, .close ofd] }, none)
+
+/-- the body of `cli_post_poll`'s loop for a client with `ofd != NO_FD`, given the events `revIn` of `fd` and `revOut` of `ofd` -/
+def clientPassCore (ofd : Nat) (w : W) (c : Cli) (ein : Option FdEnv) (revIn revOut : Nat) : W × Option Cli :=
+  if revIn &&& 8 != 0 || revIn &&& 16 != 0 then deadIO ofd w c else
+  let r1 := if revIn &&& 1 != 0 || revIn &&& 4 != 0 then readStage w c ein else (w, c)
+  if revOut &&& 4 != 0 || revOut &&& 8 != 0 || revOut &&& 16 != 0 then deadIO ofd r1.1 r1.2 else
+  let r2 := if revOut &&& 2 != 0 then handleWriteIO ofd r1.1 r1.2 else r1
+  let r3 := handleInputIO ofd r2.1 r2.2
+  if r3.1.exited then (r3.1, some r3.2) else
+  if r3.2.quit && r3.2.cmd.isNone then deadIO ofd r3.1 r3.2 else (r3.1, some r3.2)
+
+/-- `ein` / `eout` are what poll reports for `fd` / `ofd`: only what was asked for (`POLLIN` on `fd` unless the client quit,
+    `POLLOUT` on `ofd` while something is queued) and the error bits come back -/
 def clientPassIO (ofd : Nat) (w : W) (c : Cli) (ein eout : Option FdEnv) : W × Option Cli :=
-  let revIn := match ein with | some e => if c.quit then 0 else (e.rev &&& 1) ||| (e.rev &&& 28) | none => 0
-  let revOut := match eout with | some e => if c.toBuf.isEmpty then 0 else (e.rev &&& 2) ||| (e.rev &&& 28) | none => 0
-  let dead (w : W) (c : Cli) : W × Option Cli := ({ w with sys := w.sys ++ [.close c.fd, .close ofd] }, none)
-  if revIn &&& 8 != 0 || revIn &&& 16 != 0 then dead w c else
-  let (w, c) :=
-    if revIn &&& 1 != 0 || revIn &&& 4 != 0 then
-      match clipE c ein, clipC c ein with
-      | some e, c =>
-        if e.rk == 1 then ({ w with sys := w.sys ++ [.read c.fd (-1)] }, { c with quit := true })
-        else if e.rk == 2 then ({ w with sys := w.sys ++ [.read c.fd 0] }, { c with quit := true })
-        else if e.data.isEmpty then ({ w with sys := w.sys ++ [.read c.fd (-1)] }, { c with quit := true })
-        else ({ w with sys := w.sys ++ [.read c.fd e.data.length] }, { c with fromBuf := c.fromBuf ++ e.data })
-      | none, c => (w, c)
-    else (w, c)
-  if revOut &&& 4 != 0 || revOut &&& 8 != 0 || revOut &&& 16 != 0 then dead w c else
-  let (w, c) := if revOut &&& 2 != 0 then handleWriteIO ofd w c else (w, c)
-  let (w, c) := handleInputIO ofd w c
-  if w.exited then (w, some c) else
-  if c.quit && c.cmd.isNone then dead w c else (w, some c)
+  clientPassCore ofd w c ein
+    (match ein with | some e => if c.quit then 0 else (e.rev &&& 1) ||| (e.rev &&& 28) | none => 0)
+    (match eout with | some e => if c.toBuf.isEmpty then 0 else (e.rev &&& 2) ||| (e.rev &&& 28) | none => 0)
 
 /-- `cli_pre_poll` without a listener -/
 def cliPrePollIO (ofd : Nat) (w : W) : List (Nat × Nat) :=
   w.clients.flatMap fun c =>
     (if c.quit then [] else [(c.fd, 1)]) ++ (if c.toBuf.isEmpty then [] else [(ofd, 2)])
 
+/-- one client of `cli_post_poll`'s loop: its record is replaced, or removed when it was destroyed -/
+def cliStepIO (ofd : Nat) (envs : List FdEnv) (w : W) (c0 : Cli) : W :=
+  if w.exited then w else
+  let r := clientPassIO ofd w c0 (envs.find? (·.fd == c0.fd)) (envs.find? (·.fd == ofd))
+  match r.2 with
+  | some c => { r.1 with clients := r.1.clients.map fun (x : Cli) => if x.id == c.id then c else x }
+  | none => { r.1 with clients := r.1.clients.filter fun (x : Cli) => x.id != c0.id }
+
 def cliPostPollIO (ofd : Nat) (w : W) (envs : List FdEnv) : W :=
-  let w := { w with sys := [], caps := envs.map fun (e : FdEnv) => (e.fd, e.cap) }
-  w.clients.foldl (fun (w : W) (c0 : Cli) =>
-    if w.exited then w else
-    let (w', r) := clientPassIO ofd w c0 (envs.find? (·.fd == c0.fd)) (envs.find? (·.fd == ofd))
-    match r with
-    | some c => { w' with clients := w'.clients.map fun (x : Cli) => if x.id == c.id then c else x }
-    | none => { w' with clients := w'.clients.filter fun (x : Cli) => x.id != c0.id }) w
+  w.clients.foldl (cliStepIO ofd envs) { w with sys := [], caps := envs.map fun (e : FdEnv) => (e.fd, e.cap) }
 
 /-- `_create_client_stdio`: the one client exists before the loop starts, greeted like any other -/
 def createClient (fd : Nat) (w : W) : W :=
@@ -107,6 +118,99 @@ def signalPassIO (ofd : Nat) (w : W) : List String :=
 /-! ## what carries over from the one-descriptor client -/
 
 open Pm.Daemon.Tel (written)
+
+/-- the system calls a step adds to the log: all output goes to `ofd` -/
+def OutOnly (ofd : Nat) (w w' : W) : Prop :=
+  ∃ ext, w'.sys = w.sys ++ ext ∧ ∀ s ∈ ext, Isolation.isWrite s = true → Isolation.sysFd s = some ofd
+
+theorem OutOnly.refl (ofd : Nat) (w : W) : OutOnly ofd w w := ⟨[], by simp, by simp⟩
+theorem OutOnly.trans {ofd : Nat} {a b c : W} (h1 : OutOnly ofd a b) (h2 : OutOnly ofd b c) : OutOnly ofd a c := by
+  obtain ⟨e1, s1, p1⟩ := h1; obtain ⟨e2, s2, p2⟩ := h2
+  refine ⟨e1 ++ e2, by rw [s2, s1, List.append_assoc], ?_⟩
+  intro s hs; rcases List.mem_append.mp hs with h | h
+  · exact p1 s h
+  · exact p2 s h
+theorem OutOnly.push (ofd : Nat) (w : W) (l : List Sys) (h : ∀ s ∈ l, Isolation.isWrite s = false) :
+    OutOnly ofd w { w with sys := w.sys ++ l } :=
+  ⟨l, rfl, fun s hs hw => by rw [h s hs] at hw; cases hw⟩
+
+theorem handleWriteIO_outOnly (ofd : Nat) (w : W) (c : Cli) : OutOnly ofd w (handleWriteIO ofd w c).1 := by
+  obtain ⟨ext, h⟩ := Isolation.handleWrite_iso w { c with fd := ofd }
+  exact ⟨ext, h.sys, fun s hs _ => h.sysfd s hs⟩
+theorem handleInputIO_outOnly (ofd : Nat) (w : W) (c : Cli) : OutOnly ofd w (handleInputIO ofd w c).1 := by
+  obtain ⟨ext, h, _⟩ := Isolation.handleInput_iso w { c with fd := ofd }
+  exact ⟨ext, h.sys, fun s hs _ => h.sysfd s hs⟩
+
+theorem readStage_outOnly (ofd : Nat) (w : W) (c : Cli) (ein : Option FdEnv) : OutOnly ofd w (readStage w c ein).1 := by
+  unfold readStage
+  split
+  · repeat' split
+    all_goals exact OutOnly.push ofd w _ (by simp [Isolation.isWrite])
+  · exact OutOnly.refl ofd w
+
+theorem deadIO_outOnly (ofd : Nat) (w : W) (c : Cli) : OutOnly ofd w (deadIO ofd w c).1 :=
+  OutOnly.push ofd w _ (by simp [Isolation.isWrite])
+
+theorem clientPassCore_outOnly (ofd : Nat) (w : W) (c : Cli) (ein : Option FdEnv) (revIn revOut : Nat) :
+    OutOnly ofd w (clientPassCore ofd w c ein revIn revOut).1 := by
+  unfold clientPassCore
+  dsimp only
+  split
+  · exact deadIO_outOnly ofd w c
+  · generalize hr1 : (if (revIn &&& 1 != 0 || revIn &&& 4 != 0) = true then readStage w c ein else (w, c)) = r1
+    have h1 : OutOnly ofd w r1.1 := by
+      rw [← hr1]; split
+      · exact readStage_outOnly ofd w c ein
+      · exact OutOnly.refl ofd w
+    split
+    · exact h1.trans (deadIO_outOnly ofd r1.1 r1.2)
+    · generalize hr2 : (if (revOut &&& 2 != 0) = true then handleWriteIO ofd r1.1 r1.2 else r1) = r2
+      have h2 : OutOnly ofd w r2.1 := by
+        rw [← hr2]; split
+        · exact h1.trans (handleWriteIO_outOnly ofd r1.1 r1.2)
+        · exact h1
+      have h3 : OutOnly ofd w (handleInputIO ofd r2.1 r2.2).1 := h2.trans (handleInputIO_outOnly ofd r2.1 r2.2)
+      split
+      · exact h3
+      · split
+        · exact h3.trans (deadIO_outOnly ofd _ _)
+        · exact h3
+
+/-- **Whatever poll reports for either descriptor**, one pass of the `--stdio` client writes to no descriptor but `ofd`
+    (reads and closes are the only other calls it makes) -/
+theorem clientPassIO_outOnly (ofd : Nat) (w : W) (c : Cli) (ein eout : Option FdEnv) :
+    OutOnly ofd w (clientPassIO ofd w c ein eout).1 := clientPassCore_outOnly ofd w c ein _ _
+
+theorem OutOnly.of_sys_eq {ofd : Nat} {a b b' : W} (h : OutOnly ofd a b) (e : b'.sys = b.sys) : OutOnly ofd a b' := by
+  obtain ⟨ext, hs, hp⟩ := h
+  exact ⟨ext, by rw [e, hs], hp⟩
+
+theorem foldl_outOnly (ofd : Nat) (f : W → Cli → W) (hf : ∀ a x, OutOnly ofd a (f a x)) :
+    ∀ (l : List Cli) (a : W), OutOnly ofd a (l.foldl f a) := by
+  intro l; induction l with
+  | nil => intro a; exact OutOnly.refl ofd a
+  | cons x xs ih => intro a; rw [List.foldl_cons]; exact (hf a x).trans (ih _)
+
+theorem cliStepIO_outOnly (ofd : Nat) (envs : List FdEnv) (w : W) (c0 : Cli) : OutOnly ofd w (cliStepIO ofd envs w c0) := by
+  unfold cliStepIO
+  split
+  · exact OutOnly.refl ofd w
+  · have hp := clientPassIO_outOnly ofd w c0 (envs.find? (·.fd == c0.fd)) (envs.find? (·.fd == ofd))
+    dsimp only
+    split
+    · exact hp.of_sys_eq rfl
+    · exact hp.of_sys_eq rfl
+
+/-- **`cli_post_poll` in `--stdio` mode, for every set of events**: among the system calls of the pass, every `write` is on the
+    output descriptor — nothing the daemon has for the client ever goes to its input descriptor or anywhere else -/
+theorem cliPostPollIO_writes (ofd : Nat) (w : W) (envs : List FdEnv) :
+    ∀ s ∈ (cliPostPollIO ofd w envs).sys, Isolation.isWrite s = true → Isolation.sysFd s = some ofd := by
+  unfold cliPostPollIO
+  obtain ⟨ext, hs, hp⟩ := foldl_outOnly ofd (cliStepIO ofd envs) (cliStepIO_outOnly ofd envs) w.clients
+    { w with sys := [], caps := envs.map fun (e : FdEnv) => (e.fd, e.cap) }
+  intro s hsm hw
+  rw [hs] at hsm
+  exact hp s (by simpa using hsm) hw
 
 /-- the bytes handed to the output descriptor followed by what stays queued is what was queued: nothing is lost, duplicated or
     reordered, whatever the capacity, blocking or not, error or not; and nothing is ever written to the input descriptor -/
